@@ -147,28 +147,33 @@ Proof.
     rewrite Eb in Hbin. rewrite Eb, Hbin. reflexivity.
 Qed.
 
-Section WithBlacklist.
-(** [Arg::blacklist] as a function of (owning command, argument): every theorem holds for every such function *)
-Variable bl : cmd -> arg -> list bytes.
-Local Notation arg_conflicts := (ZshModel.arg_conflicts bl).
-Local Notation opt_short_line := (ZshModel.opt_short_line bl).
-Local Notation opt_long_line := (ZshModel.opt_long_line bl).
-Local Notation opt_lines := (ZshModel.opt_lines bl).
-Local Notation write_opts_of := (ZshModel.write_opts_of bl).
-Local Notation zflag_line := (ZshModel.zflag_line bl).
-Local Notation flag_lines := (ZshModel.flag_lines bl).
-Local Notation write_flags_of := (ZshModel.write_flags_of bl).
-Local Notation get_args_of := (ZshModel.get_args_of bl).
-Local Notation get_subcommands_of := (ZshModel.get_subcommands_of bl).
-Local Notation zsh_pieces := (ZshModel.zsh_pieces bl).
-Local Notation zsh_script := (ZshModel.zsh_script bl).
-Local Notation generate_zsh := (ZshModel.generate_zsh bl).
-
 (** ---- totality ---- *)
-Lemma get_args_of_total c d g : c_bin c <> None -> get_args_of c d g <> None.
+Lemma args_body_total c d g : c_bin c <> None -> args_body c d g <> None.
 Proof.
-  intros Hb. unfold ZshModel.get_args_of. destruct (has_subcommands c); [|discriminate].
+  intros Hb. unfold args_body. destruct (has_subcommands c); [|discriminate].
   destruct (c_bin c); [discriminate|contradiction].
+Qed.
+(** [get_args_of] fails only through the bin name or through an unresolvable conflict *)
+Lemma get_args_of_guard c d g : conflicts_resolve c g = true -> get_args_of c d g = args_body c d g.
+Proof. intros H. unfold get_args_of. rewrite H. reflexivity. Qed.
+Lemma get_args_of_total c d g : c_bin c <> None -> conflicts_resolve c g = true -> get_args_of c d g <> None.
+Proof. intros Hb Hc. rewrite get_args_of_guard by exact Hc. apply args_body_total. exact Hb. Qed.
+Lemma get_args_of_body c d g blk : get_args_of c d g = Some blk -> args_body c d g = Some blk.
+Proof. unfold get_args_of. destruct (negb (conflicts_resolve c g)); [discriminate|auto]. Qed.
+Lemma get_args_of_unresolved c d g : conflicts_resolve c g = false -> get_args_of c d g = None.
+Proof. intros H. unfold get_args_of. rewrite H. reflexivity. Qed.
+
+(** the conflicts of the tree resolve where the generator asks: at the root without a parent, and for the command
+    the lookup returns for each subcommand, with its parent *)
+Definition cres_below (c : cmd) : Prop :=
+  forall p sc m, (p = c \/ desc c p) -> In sc (c_subs p) -> parser_of p (bin_or_default sc) = Some m ->
+                 conflicts_resolve m (Some p) = true.
+(** both together: no [arg_conflicts] call of the generator panics on the tree *)
+Definition cres (c : cmd) : Prop := conflicts_resolve c None = true /\ cres_below c.
+Lemma cres_below_desc c n : cres_below c -> desc c n -> cres_below n.
+Proof.
+  intros H Hd p sc m Hp Hsc Hm. apply (H p sc m); [|exact Hsc|exact Hm].
+  right. destruct Hp as [->|Hp]; [exact Hd|eapply desc_trans; eassumption].
 Qed.
 
 Lemma subcommands_of_linked p pb :
@@ -185,9 +190,9 @@ Proof.
 Qed.
 
 Lemma get_subcommands_of_total : forall f p d pb,
-  c_bin p = Some pb -> linked p -> (depth p <= f)%nat -> get_subcommands_of f p d <> None.
+  c_bin p = Some pb -> linked p -> cres_below p -> (depth p <= f)%nat -> get_subcommands_of f p d <> None.
 Proof.
-  induction f as [|f IH]; intros p d pb Hb Hl Hdepth.
+  induction f as [|f IH]; intros p d pb Hb Hl Hcr Hdepth.
   - pose proof (depth_pos p). lia.
   - cbn [ZshModel.get_subcommands_of]. destruct (negb (has_subcommands p)); [discriminate|].
     destruct (subcommands_of_linked _ _ Hl Hb) as (l & El & Hl'). rewrite El.
@@ -201,9 +206,10 @@ Proof.
       destruct (parser_of_d_some p d _ _ Em) as [md Emd]. rewrite Emd.
       destruct (parser_of_child_below _ _ _ _ Hl Hb Hsc Em) as [Hd Hmb].
       destruct (get_args_of m md (Some p)) as [sa|] eqn:Ea.
-      2:{ exfalso. revert Ea. apply get_args_of_total. rewrite Hmb. discriminate. }
+      2:{ exfalso. revert Ea. apply get_args_of_total; [rewrite Hmb; discriminate|].
+          apply (Hcr p sc m (or_introl eq_refl) Hsc). unfold bin_or_default. rewrite Ebin. exact Em. }
       destruct (get_subcommands_of f m md) as [ch|] eqn:Ec; [discriminate|].
-      exfalso. revert Ec. apply (IH m md _ Hmb (linked_desc _ _ Hl Hd)).
+      exfalso. revert Ec. apply (IH m md _ Hmb (linked_desc _ _ Hl Hd) (cres_below_desc _ _ Hcr Hd)).
       pose proof (desc_depth _ _ Hd). lia. }
     rewrite Er, Hb. discriminate.
 Qed.
@@ -225,13 +231,14 @@ Qed.
 
 (** C16 (zsh): for every [linked] tree with a bin name -- what [Command::build] produces -- the
     generator writes a script: no [expect] fires, the recursion through [parser_of] ends *)
-Theorem zsh_total c d b : c_bin c = Some b -> linked c -> exists s, zsh_script c d = Some s.
+Theorem zsh_total c d b :
+  c_bin c = Some b -> linked c -> conflicts_resolve c None = true -> cres_below c -> exists s, zsh_script c d = Some s.
 Proof.
-  intros Hb Hl. unfold ZshModel.zsh_script, ZshModel.zsh_pieces. rewrite Hb.
+  intros Hb Hl Hc0 Hcr. unfold ZshModel.zsh_script, ZshModel.zsh_pieces. rewrite Hb.
   destruct (get_args_of c d None) as [ia|] eqn:Ea.
-  2:{ exfalso. revert Ea. apply get_args_of_total. rewrite Hb; discriminate. }
+  2:{ exfalso. revert Ea. apply get_args_of_total; [rewrite Hb; discriminate|exact Hc0]. }
   destruct (get_subcommands_of (depth c) c d) as [sc|] eqn:Es.
-  2:{ exfalso. revert Es. apply (get_subcommands_of_total _ _ _ _ Hb Hl). lia. }
+  2:{ exfalso. revert Es. apply (get_subcommands_of_total _ _ _ _ Hb Hl Hcr). lia. }
   destruct (zsubcommand_details c d) as [de|] eqn:Ed.
   2:{ exfalso. revert Ed. apply (subcommand_details_total _ _ _ Hb Hl). }
   eexists; reflexivity.
@@ -420,12 +427,15 @@ Proof.
 Qed.
 
 Definition args_block (c : cmd) (d : cdesc) (g : option cmd) : list zpiece :=
-  match get_args_of c d g with Some x => x | None => [] end.
-Lemma get_args_of_block c d g : c_bin c <> None -> get_args_of c d g = Some (args_block c d g).
+  match args_body c d g with Some x => x | None => [] end.
+Lemma args_body_block c d g : c_bin c <> None -> args_body c d g = Some (args_block c d g).
 Proof.
-  intros Hb. unfold args_block. destruct (get_args_of c d g) eqn:E; [reflexivity|].
-  exfalso. revert E. apply get_args_of_total. exact Hb.
+  intros Hb. unfold args_block. destruct (args_body c d g) eqn:E; [reflexivity|].
+  exfalso. revert E. apply args_body_total. exact Hb.
 Qed.
+Lemma get_args_of_block c d g :
+  c_bin c <> None -> conflicts_resolve c g = true -> get_args_of c d g = Some (args_block c d g).
+Proof. intros Hb Hc. rewrite get_args_of_guard by exact Hc. apply args_body_block. exact Hb. Qed.
 
 (** one arm of [case $line[pos] in]: the label, the [_arguments] block of the subcommand, its own subcommand section *)
 Definition arm (blk ch : list zpiece) (w : bytes) : list zpiece :=
@@ -512,10 +522,10 @@ Qed.
 
 (** in the class, [get_subcommands_of] computes the structural specification (with any sufficient fuel) *)
 Theorem get_subcommands_of_spec : forall f p d pb,
-  c_bin p = Some pb -> linked p -> nospace p -> sibling_names p -> (depth p <= f)%nat ->
+  c_bin p = Some pb -> linked p -> nospace p -> sibling_names p -> cres_below p -> (depth p <= f)%nat ->
   get_subcommands_of f p d = Some (zspec_subs p d).
 Proof.
-  induction f as [|f IH]; intros p d pb Hb Hl Hns Hsn Hdepth.
+  induction f as [|f IH]; intros p d pb Hb Hl Hns Hsn Hcr Hdepth.
   - pose proof (depth_pos p). lia.
   - cbn [ZshModel.get_subcommands_of]. rewrite zspec_subs_unfold. unfold has_subcommands. rewrite Bool.negb_involutive.
     destruct (is_nil (c_subs p)) eqn:Enil; [reflexivity|].
@@ -529,8 +539,12 @@ Proof.
       pose proof (linked_child_bin _ _ _ Hl Hb Hsc) as Esc.
       apply map_opt_map_map. intros w Hw. cbn [fst snd]. unfold bin_or_default. rewrite Esc.
       rewrite (parser_of_d_child p d pb sc sd Hl Hb Hns Hsn Hin).
-      rewrite (get_args_of_block sc sd (Some p)) by (rewrite Esc; discriminate).
-      rewrite (IH sc sd _ Esc (linked_sub _ _ Hl Hsc) (nospace_sub _ _ Hns Hsc) (sibling_names_sub _ _ Hsn Hsc)).
+      rewrite (get_args_of_block sc sd (Some p)).
+      2:{ rewrite Esc; discriminate. }
+      2:{ apply (Hcr p sc sc (or_introl eq_refl) Hsc). unfold bin_or_default. rewrite Esc.
+          rewrite <- (parser_of_d_fst p d), (parser_of_d_child p d pb sc sd Hl Hb Hns Hsn Hin). reflexivity. }
+      rewrite (IH sc sd _ Esc (linked_sub _ _ Hl Hsc) (nospace_sub _ _ Hns Hsc) (sibling_names_sub _ _ Hsn Hsc)
+                  (cres_below_desc _ _ Hcr (desc_child _ _ Hsc))).
       * reflexivity.
       * pose proof (desc_depth _ _ (desc_child _ _ Hsc)). lia.
 Qed.
@@ -601,7 +615,7 @@ Lemma args_block_shape c d g :
        In [Zx (lit """:: :_" ++ space_to_dd (bin_or_default c) ++ lit "_commands"" \")] segs /\
        In [Zx (lit """*::: :->" ++ c_name c ++ lit """ \")] segs).
 Proof.
-  intros Hb. unfold args_block, ZshModel.get_args_of, bin_or_default.
+  intros Hb. unfold args_block, ZshModel.args_body, bin_or_default.
   assert (Hnil : forall x : list zpiece, x <> [] -> In x (if negb (is_nil x) then [x] else [])).
   { intros [|? ?] H; [contradiction|left; reflexivity]. }
   set (A := if negb (is_nil (write_opts_of c d g)) then [write_opts_of c d g] else []).
@@ -686,30 +700,32 @@ Proof.
   rewrite flag_lines_spellings. cbn [fst]. apply in_map_iff. exists (dashes, name). split; [reflexivity|exact Hs].
 Qed.
 
-(** positionals: every positional that takes at most one value has its line (a multi-valued one is skipped once a
-    catch-all was written: documented in write_positionals_of) *)
+(** positionals: every positional that takes at most one value and is not [last] has its line (a multi-valued or
+    [last] one is skipped once a catch-all was written: documented in write_positionals_of) *)
 Lemma positional_lines_single hs : forall l ce p,
-  In p l -> (1 <? a_max_values (fst p)) = false ->
+  In p l -> (1 <? a_max_values (fst p)) = false -> a_last (fst p) = false ->
   exists card, In (positional_line card p) (positional_lines hs ce l).
 Proof.
-  induction l as [|q t IH]; intros ce p Hin Hm; [destruct Hin|].
+  induction l as [|q t IH]; intros ce p Hin Hm Hlast; [destruct Hin|].
   cbn [positional_lines]. destruct Hin as [->|Hin].
-  - rewrite Hm. rewrite Bool.orb_false_r. unfold arg_is_last. rewrite Bool.andb_false_r. cbn [andb].
+  - rewrite Hm. unfold arg_is_last. rewrite Hlast. cbn [orb]. rewrite Bool.andb_false_r. cbn [andb].
     destruct (negb (a_required (fst p))); eexists; left; reflexivity.
   - destruct (ce && (arg_is_last (fst q) || (1 <? a_max_values (fst q)))); [apply IH; assumption|].
     destruct ((1 <? a_max_values (fst q)) && negb hs).
-    + unfold arg_terminator. destruct (IH true p Hin Hm) as [card Hc]. exists card. right. exact Hc.
-    + destruct (negb (a_required (fst q))); destruct (IH ce p Hin Hm) as [card Hc]; exists card; right; exact Hc.
+    + destruct (arg_terminator (fst q)).
+      * destruct (IH ce p Hin Hm Hlast) as [card Hc]. exists card. right. exact Hc.
+      * destruct (IH true p Hin Hm Hlast) as [card Hc]. exists card. right. exact Hc.
+    + destruct (negb (a_required (fst q))); destruct (IH ce p Hin Hm Hlast) as [card Hc]; exists card; right; exact Hc.
 Qed.
 
 Theorem block_positional_line c d g a ad :
   c_bin c <> None -> In (a, ad) (zipd ad0 (c_args c) (cd_args d)) -> a_is_positional a = true ->
-  (1 <? a_max_values a) = false ->
+  (1 <? a_max_values a) = false -> a_last a = false ->
   exists card, sublist (positional_line card (a, ad)) (args_block c d g).
 Proof.
-  intros Hb Hin Hp Hm.
+  intros Hb Hin Hp Hm Hlast.
   destruct (positional_lines_single (has_subcommands c) (filter is_pos (zipd ad0 (c_args c) (cd_args d))) false (a, ad))
-    as [card Hc]; [apply filter_In; split; [exact Hin|exact Hp]|exact Hm|].
+    as [card Hc]; [apply filter_In; split; [exact Hin|exact Hp]|exact Hm|exact Hlast|].
   exists card. eapply (in_block c d g _); [exact Hb|exact Hc|discriminate|right; right; reflexivity].
 Qed.
 
@@ -739,11 +755,12 @@ Qed.
 
 (** an option that REQUIRES a value carries its value list on every one of its lines *)
 Lemma opt_vc_values p val :
-  a_min_values (fst p) <> 0 -> zvalue_completion p = Some val -> sublist (Zx (lit ": :") :: val) (opt_vc p).
+  a_min_values (fst p) <> 0 -> zvalue_completion p = Some val ->
+  sublist (Zx (lit ":" ++ value_name (fst p) ++ lit ":") :: val) (opt_vc p).
 Proof.
   intros Hm Hv. unfold opt_vc. rewrite Hv.
   destruct (N.to_nat (a_min_values (fst p))) as [|k] eqn:E; [lia|].
-  cbn [repeat List.concat]. exists [], (List.concat (repeat (Zx (lit ": :") :: val) k)). reflexivity.
+  cbn [repeat List.concat]. exists [], (List.concat (repeat (Zx (lit ":" ++ value_name (fst p) ++ lit ":") :: val) k)). reflexivity.
 Qed.
 
 Theorem opt_line_values c g a ad vs pv line :
@@ -778,7 +795,9 @@ Record zsh_ok (c : cmd) (b : bytes) : Prop := {
   zo_bin : c_bin c = Some b;
   zo_linked : linked c;
   zo_nospace : nospace c;
-  zo_siblings : sibling_names c
+  zo_siblings : sibling_names c;
+  zo_conflicts_root : conflicts_resolve c None = true;     (* no [arg_conflicts] call panics: at the root ... *)
+  zo_conflicts : cres_below c                              (* ... and for every subcommand with its parent *)
 }.
 
 Definition script_head (name : bytes) : bytes :=
@@ -811,9 +830,9 @@ Theorem zsh_pieces_shape c d b :
     zsh_pieces c d = Some ([Zx (script_head b)] ++ args_block c d None ++ zspec_subs c d
                            ++ [Zx (lf ++ lit "}" ++ lf ++ lf)] ++ details ++ [Zx (script_tail b)]).
 Proof.
-  intros [Hb Hl Hns Hsn]. unfold ZshModel.zsh_pieces. rewrite Hb.
-  rewrite (get_args_of_block c d None) by (rewrite Hb; discriminate).
-  rewrite (get_subcommands_of_spec (depth c) c d b Hb Hl Hns Hsn (le_n _)).
+  intros [Hb Hl Hns Hsn Hc0 Hcr]. unfold ZshModel.zsh_pieces. rewrite Hb.
+  rewrite (get_args_of_block c d None) by (try exact Hc0; rewrite Hb; discriminate).
+  rewrite (get_subcommands_of_spec (depth c) c d b Hb Hl Hns Hsn Hcr (le_n _)).
   destruct (zsubcommand_details c d) as [de|] eqn:Ed.
   2:{ exfalso. revert Ed. apply (subcommand_details_total _ _ _ Hb Hl). }
   exists de. split; reflexivity.
@@ -1059,21 +1078,253 @@ Theorem option_spellings_complete a :
                                             forall x, In (x, true) (a_aliases a) -> In x l).
 Proof. split; [exact (shorts_list_complete a)|exact (longs_list_complete a)]. Qed.
 
-(** the exclusion list of a non-global argument: the spellings (short, then long) of the arguments its blacklist names,
-    in the order of the blacklist; nothing when the blacklist names none *)
-Theorem conflicts_list c a g :
-  a_global a = false ->
-  arg_conflicts c a g =
-  (if is_nil (filter_map (find_arg c) (bl c a)) then []
-   else lit "(" ++ intercalate (lit " ") (push_conflicts (filter_map (find_arg c) (bl c a))) ++ lit ")").
+(** ---- conflicts: resolution, groups, the panic sites ---- *)
+(** the exclusion list [arg_conflicts] writes, from the resolved conflicts *)
+Definition conflicts_text (conflicts : list arg) : bytes :=
+  if is_nil conflicts then [] else lit "(" ++ intercalate (lit " ") (push_conflicts conflicts) ++ lit ")".
+
+(** a non-global argument: the spellings (short, then long) of what every blacklist entry resolves to, in the order of
+    the blacklist; nothing when the blacklist resolves to nothing; whatever the parent *)
+Theorem conflicts_list c a g ls :
+  a_global a = false -> map_opt (conflict_targets c) (a_blacklist a) = Some ls ->
+  arg_conflicts_opt c a g = Some (conflicts_text (List.concat ls)) /\
+  arg_conflicts c a g = conflicts_text (List.concat ls).
 Proof.
-  intros H. unfold ZshModel.arg_conflicts, get_arg_conflicts_with. rewrite H. destruct g; reflexivity.
+  intros H E. unfold arg_conflicts, arg_conflicts_opt, get_arg_conflicts_with. rewrite H.
+  destruct g; rewrite E; split; reflexivity.
 Qed.
-End WithBlacklist.
+
+(** an entry that names an argument of the command resolves to that argument (arguments come before groups) *)
+Lemma conflict_targets_arg c id y : find_arg c id = Some y -> conflict_targets c id = Some [y].
+Proof. intros H. unfold conflict_targets. rewrite H. reflexivity. Qed.
+
+(** [unroll_args_in_group]: the invariant of the loop -- everything collected is an argument of the command *)
+Lemma unroll_fold x : forall ms acc,
+  Forall (fun n => is_some (find_arg x n) = true) ms -> Forall (fun n => is_some (find_arg x n) = true) acc ->
+  exists l, fold_left (fun acc n =>
+               match acc with
+               | None => None
+               | Some l => if existsb (beq n) l then Some l
+                           else if is_some (find_arg x n) then Some (l ++ [n])
+                           else None
+               end) ms (Some acc) = Some l /\ Forall (fun n => is_some (find_arg x n) = true) l.
+Proof.
+  induction ms as [|n ms IH]; intros acc Hms Hacc; [exists acc; split; [reflexivity|exact Hacc]|].
+  cbn [fold_left]. inversion Hms as [|? ? Hn Hms']; subst.
+  destruct (existsb (beq n) acc); [apply IH; assumption|].
+  rewrite Hn. apply IH; [assumption|]. apply Forall_app. split; [exact Hacc|constructor; [exact Hn|constructor]].
+Qed.
+Lemma find_arg_self x a : In a (c_args x) -> is_some (find_arg x (a_id a)) = true.
+Proof.
+  intros Hin. unfold find_arg. destruct (find (fun y => beq (a_id y) (a_id a)) (c_args x)) eqn:E; [reflexivity|].
+  exfalso. pose proof (find_none _ _ E a Hin) as H. cbn beta in H. rewrite beq_refl in H. discriminate.
+Qed.
+Lemma group_members_args x g : Forall (fun n => is_some (find_arg x n) = true) (group_members x g).
+Proof.
+  apply Forall_forall. intros n Hn. unfold group_members in Hn. apply in_flat_map in Hn.
+  destruct Hn as (a & Ha & Hn). apply in_map_iff in Hn. destruct Hn as (? & <- & _). apply find_arg_self. exact Ha.
+Qed.
+(** the nested-group branch of [unroll_args_in_group] and the [expect] on its members are dead *)
+Theorem unroll_total x g :
+  exists ids, unroll_args_in_group x g = Some ids /\ exists l, map_opt (find_arg x) ids = Some l.
+Proof.
+  destruct (unroll_fold x (group_members x g) [] (group_members_args x g) (Forall_nil _)) as (ids & E & Hids).
+  exists ids. split; [exact E|]. clear E. induction ids as [|n t IH]; [exists []; reflexivity|].
+  inversion Hids as [|? ? Hn Ht]; subst. destruct (IH Ht) as (l & El). rewrite map_opt_cons, El.
+  destruct (find_arg x n) as [y|]; [eexists; reflexivity|discriminate].
+Qed.
+(** so one entry of a non-global argument fails exactly when it names neither an argument nor a group: the [panic!] *)
+Theorem conflict_targets_resolves x id :
+  conflict_targets x id <> None <-> (is_some (find_arg x id) || find_group x id) = true.
+Proof.
+  unfold conflict_targets. destruct (find_arg x id) as [y|]; cbn [is_some orb]; [split; [reflexivity|discriminate]|].
+  destruct (find_group x id); [|split; [intros H; contradiction|discriminate]].
+  destruct (unroll_total x id) as (ids & -> & l & ->). split; [reflexivity|discriminate].
+Qed.
+
+(** the LOCAL class in which no [arg_conflicts] call panics: every blacklist entry of a non-positional argument names
+    an argument of its command, or -- for an argument that is not global -- a group of its command.  (clap's
+    configuration check, [id_exists], accepts a group for a global argument too: that is the boundary, see
+    [zsh_global_conflicts_group_refuted].) *)
+Definition entry_ok (m : cmd) (a : arg) (id : bytes) : bool :=
+  is_some (find_arg m id) || (negb (a_global a) && find_group m id).
+Definition conflicts_local (m : cmd) : bool :=
+  forallb (fun a => forallb (entry_ok m a) (a_blacklist a)) (filter (fun a => negb (a_is_positional a)) (c_args m)).
+
+Lemma map_opt_total_in {A B} (f : A -> option B) l : (forall x, In x l -> f x <> None) -> exists r, map_opt f l = Some r.
+Proof.
+  induction l as [|h t IH]; intros H; [exists []; reflexivity|].
+  destruct (IH (fun x Hx => H x (or_intror Hx))) as (r & Er). rewrite map_opt_cons, Er.
+  destruct (f h) eqn:E; [eexists; reflexivity|]. exfalso. apply (H h (or_introl eq_refl)). exact E.
+Qed.
+
+Lemma subcommands_containing_child p m id :
+  In m (c_subs p) -> existsb (fun a => beq (a_id a) id) (c_args m) = true -> In m (subcommands_containing p id).
+Proof.
+  destruct p as [n al args subs bin h v s g]. cbn [c_subs subcommands_containing]. intros Hin Hex.
+  apply in_flat_map. exists m. split; [exact Hin|]. rewrite Hex. left. reflexivity.
+Qed.
+
+(** resolution for the command [m] written below its parent [p] (or the root: no parent) *)
+Theorem conflicts_local_resolve m g :
+  conflicts_local m = true -> (forall p, g = Some p -> In m (c_subs p)) -> conflicts_resolve m g = true.
+Proof.
+  intros Hloc Hg. unfold conflicts_resolve. apply forallb_forall. intros a Ha.
+  unfold conflicts_local in Hloc. rewrite forallb_forall in Hloc. specialize (Hloc a Ha). rewrite forallb_forall in Hloc.
+  apply filter_In in Ha. destruct Ha as [Ha _].
+  assert (Hglob : forall x, (x = m \/ In m (c_subs x)) -> a_global a = true -> get_arg_conflicts_with x a <> None).
+  { intros x Hx Hgl. unfold get_arg_conflicts_with. rewrite Hgl. unfold get_global_arg_conflicts_with.
+    match goal with |- map_opt ?F ?L <> None => destruct (map_opt_total_in F L) as (r & ->); [|discriminate] end.
+    intros id Hid. specialize (Hloc id Hid). unfold entry_ok in Hloc. rewrite Hgl in Hloc. cbn [negb andb] in Hloc.
+    rewrite Bool.orb_false_r in Hloc. unfold find_arg in Hloc.
+    destruct (find (fun y => beq (a_id y) id) (c_args m)) as [y|] eqn:Ey; [|discriminate].
+    apply find_some in Ey. destruct Ey as [Hy Eyid].
+    intros Hnone. pose proof (find_none _ _ Hnone y) as Hn. cbn beta in Hn. rewrite Eyid in Hn.
+    assert (Hin : In y (c_args x ++ flat_map c_args (subcommands_containing x (a_id a)))); [|specialize (Hn Hin); discriminate].
+    destruct Hx as [->|Hx]; [apply in_or_app; left; exact Hy|].
+    apply in_or_app. right. apply in_flat_map. exists m. split; [|exact Hy].
+    apply subcommands_containing_child; [exact Hx|]. apply existsb_exists. exists a. split; [exact Ha|apply beq_refl]. }
+  assert (Hlocal : a_global a = false -> get_arg_conflicts_with m a <> None).
+  { intros Hgl. unfold get_arg_conflicts_with. rewrite Hgl.
+    match goal with |- match map_opt ?F ?L with _ => _ end <> None => destruct (map_opt_total_in F L) as (r & ->); [|discriminate] end.
+    intros id Hid. apply conflict_targets_resolves. specialize (Hloc id Hid). unfold entry_ok in Hloc. rewrite Hgl in Hloc.
+    exact Hloc. }
+  unfold arg_conflicts_opt. destruct (a_global a) eqn:Hgl.
+  - destruct g as [p|].
+    + specialize (Hglob p (or_intror (Hg p eq_refl)) eq_refl). destruct (get_arg_conflicts_with p a); [reflexivity|contradiction].
+    + specialize (Hglob m (or_introl eq_refl) eq_refl). destruct (get_arg_conflicts_with m a); [reflexivity|contradiction].
+  - specialize (Hlocal eq_refl).
+    destruct g as [p|]; (destruct (get_arg_conflicts_with m a); [reflexivity|contradiction]).
+Qed.
+
+(** trees without any conflict declaration *)
+Definition nobl (c : cmd) : Prop := forall n, (n = c \/ desc c n) -> forall a, In a (c_args n) -> a_blacklist a = [].
+Lemma nobl_local c n : nobl c -> (n = c \/ desc c n) -> conflicts_local n = true.
+Proof.
+  intros H Hn. unfold conflicts_local. apply forallb_forall. intros a Ha. apply filter_In in Ha.
+  rewrite (H n Hn a (proj1 Ha)). reflexivity.
+Qed.
+Lemma nobl_resolve c n g : nobl c -> (n = c \/ desc c n) -> conflicts_resolve n g = true.
+Proof.
+  intros H Hn. unfold conflicts_resolve. apply forallb_forall. intros a Ha. apply filter_In in Ha.
+  unfold arg_conflicts_opt, get_arg_conflicts_with, get_global_arg_conflicts_with. rewrite (H n Hn a (proj1 Ha)).
+  destruct g; destruct (a_global a); reflexivity.
+Qed.
+Lemma nobl_cres c : nobl c -> conflicts_resolve c None = true /\ cres_below c.
+Proof.
+  intros H. split; [apply (nobl_resolve c c); [exact H|left; reflexivity]|].
+  intros p sc m Hp Hsc Hm. apply (nobl_resolve c m); [exact H|].
+  destruct (parser_of_sound _ _ _ Hm) as [[->|Hd] _]; [exact Hp|].
+  right. destruct Hp as [->|Hp]; [exact Hd|eapply desc_trans; eassumption].
+Qed.
+
+(** the local class at every node of a tree in the exact-lookup class: the whole class [zsh_ok] -- no panic site of the
+    generator is reachable ([zsh_total]) *)
+Theorem zsh_ok_local c b :
+  c_bin c = Some b -> linked c -> nospace c -> sibling_names c ->
+  (forall n, (n = c \/ desc c n) -> conflicts_local n = true) -> zsh_ok c b.
+Proof.
+  intros Hb Hl Hns Hsn Hloc. constructor; try assumption.
+  - apply conflicts_local_resolve; [apply Hloc; left; reflexivity|intros p Hp; discriminate].
+  - intros p sc m Hp Hsc Hm.
+    assert (Hpb : exists pb, c_bin p = Some pb /\ linked p /\ nospace p /\ sibling_names p).
+    { destruct Hp as [->|Hd]; [exists b; auto|].
+      destruct (linked_desc_bin _ _ Hl Hd) as [pb Epb]. exists pb. split; [exact Epb|].
+      split; [eapply linked_desc; eassumption|]. split; [eapply nospace_desc; eassumption|eapply sibling_names_desc; eassumption]. }
+    destruct Hpb as (pb & Epb & Hlp & Hnp & Hsp).
+    rewrite (parser_of_exact p pb sc Epb Hlp Hnp Hsp (or_intror (desc_child _ _ Hsc))) in Hm. inversion Hm; subst m.
+    apply conflicts_local_resolve.
+    + apply Hloc. right. destruct Hp as [->|Hd]; [apply desc_child; exact Hsc|eapply desc_trans; [exact Hd|apply desc_child; exact Hsc]].
+    + intros p' Hp'. inversion Hp'; subst p'. exact Hsc.
+Qed.
+Theorem zsh_total_local c d b :
+  c_bin c = Some b -> linked c -> nospace c -> sibling_names c ->
+  (forall n, (n = c \/ desc c n) -> conflicts_local n = true) -> exists s, zsh_script c d = Some s.
+Proof.
+  intros Hb Hl Hns Hsn Hloc. destruct (zsh_ok_local c b Hb Hl Hns Hsn Hloc) as [H1 H2 _ _ H5 H6].
+  exact (zsh_total c d b H1 H2 H5 H6).
+Qed.
+
+(** a blacklist entry that names a GROUP (and no argument) expands to the members of the group, in argument order:
+    when the argument ids of the command are pairwise distinct (clap's configuration check) *)
+Lemma unroll_fold_spec x : forall (l : list arg) acc,
+  NoDup (map a_id l) -> (forall a, In a l -> ~ In (a_id a) acc) ->
+  (forall a, In a l -> is_some (find_arg x (a_id a)) = true) ->
+  forall g,
+  fold_left (fun acc n =>
+               match acc with
+               | None => None
+               | Some l => if existsb (beq n) l then Some l
+                           else if is_some (find_arg x n) then Some (l ++ [n])
+                           else None
+               end)
+            (flat_map (fun a => map (fun _ : bytes => a_id a) (filter (beq g) (a_groups a))) l) (Some acc)
+  = Some (acc ++ map a_id (filter (in_group g) l)).
+Proof.
+  induction l as [|a l IH]; intros acc Hnd Hfresh Hargs g; [cbn; rewrite app_nil_r; reflexivity|].
+  cbn [flat_map filter map]. rewrite fold_left_app. inversion Hnd as [|? ? Hna Hnd']; subst.
+  unfold in_group at 1.
+  (* the mentions of [g] in [a_groups a]: the first pushes the id, the others find it *)
+  assert (Hm : forall k acc', (forall y, In y acc' -> y <> a_id a) \/ In (a_id a) acc' ->
+            fold_left (fun acc n =>
+               match acc with
+               | None => None
+               | Some l => if existsb (beq n) l then Some l
+                           else if is_some (find_arg x n) then Some (l ++ [n])
+                           else None
+               end) (repeat (a_id a) k) (Some acc')
+            = Some (if (0 <? N.of_nat k) && negb (existsb (beq (a_id a)) acc') then acc' ++ [a_id a] else acc')).
+  { induction k as [|k IHk]; intros acc' Hacc'; [reflexivity|]. cbn [repeat fold_left].
+    destruct (existsb (beq (a_id a)) acc') eqn:Eex.
+    - rewrite IHk by exact Hacc'. rewrite Eex, !Bool.andb_false_r. reflexivity.
+    - rewrite (Hargs a (or_introl eq_refl)). rewrite IHk.
+      2:{ right. apply in_or_app. right. left. reflexivity. }
+      assert (E2 : existsb (beq (a_id a)) (acc' ++ [a_id a]) = true).
+      { apply existsb_exists. exists (a_id a). split; [apply in_or_app; right; left; reflexivity|apply beq_refl]. }
+      rewrite E2, Bool.andb_false_r. cbn [negb]. rewrite Bool.andb_true_r.
+      replace (0 <? N.of_nat (S k)) with true by (symmetry; apply N.ltb_lt; lia). reflexivity. }
+  assert (Hrep : map (fun _ : bytes => a_id a) (filter (beq g) (a_groups a)) = repeat (a_id a) (List.length (filter (beq g) (a_groups a)))).
+  { induction (filter (beq g) (a_groups a)) as [|y t IHt]; [reflexivity|]. cbn [map List.length repeat]. rewrite IHt. reflexivity. }
+  rewrite Hrep, Hm.
+  2:{ left. intros y Hy E. subst y. exact (Hfresh a (or_introl eq_refl) Hy). }
+  assert (Hne : existsb (beq (a_id a)) acc = false).
+  { destruct (existsb (beq (a_id a)) acc) eqn:E; [|reflexivity]. exfalso. apply existsb_exists in E.
+    destruct E as (y & Hy & Ey). apply beq_eq in Ey. subst y. exact (Hfresh a (or_introl eq_refl) Hy). }
+  rewrite Hne. cbn [negb]. rewrite Bool.andb_true_r.
+  assert (Hex : forall gs : list bytes, existsb (beq g) gs = (0 <? N.of_nat (List.length (filter (beq g) gs)))).
+  { induction gs as [|y t IHt]; [reflexivity|]. cbn [existsb filter]. destruct (beq g y); cbn [orb List.length].
+    - symmetry. apply N.ltb_lt. lia.
+    - exact IHt. }
+  rewrite <- Hex. destruct (existsb (beq g) (a_groups a)).
+  - rewrite IH.
+    + cbn [map]. rewrite <- app_assoc. reflexivity.
+    + exact Hnd'.
+    + intros a' Ha' Hin. apply in_app_or in Hin. destruct Hin as [Hin|[Hin|[]]].
+      * exact (Hfresh a' (or_intror Ha') Hin).
+      * apply Hna. rewrite Hin. apply in_map. exact Ha'.
+    + intros a' Ha'. apply Hargs. right. exact Ha'.
+  - apply IH; [exact Hnd'| |].
+    + intros a' Ha'. apply Hfresh. right. exact Ha'.
+    + intros a' Ha'. apply Hargs. right. exact Ha'.
+Qed.
+Lemma find_arg_nodup x a : NoDup (map a_id (c_args x)) -> In a (c_args x) -> find_arg x (a_id a) = Some a.
+Proof.
+  unfold find_arg. induction (c_args x) as [|y l IH]; intros Hnd Hin; [destruct Hin|].
+  inversion Hnd as [|? ? Hny Hnd']; subst. cbn [find]. destruct Hin as [->|Hin]; [rewrite beq_refl; reflexivity|].
+  destruct (beq (a_id y) (a_id a)) eqn:E; [|apply IH; assumption].
+  exfalso. apply beq_eq in E. apply Hny. rewrite E. apply in_map. exact Hin.
+Qed.
+Theorem conflict_targets_group x id :
+  NoDup (map a_id (c_args x)) -> find_arg x id = None -> find_group x id = true ->
+  conflict_targets x id = Some (filter (in_group id) (c_args x)).
+Proof.
+  intros Hnd Hna Hg. unfold conflict_targets. rewrite Hna, Hg. unfold unroll_args_in_group, group_members.
+  rewrite (unroll_fold_spec x (c_args x) [] Hnd (fun _ _ H => H) (fun a Ha => find_arg_self x a Ha) id). cbn [app].
+  rewrite <- (map_id (filter (in_group id) (c_args x))) at 2.
+  apply map_opt_map_map. intros a Ha. apply filter_In in Ha. apply find_arg_nodup; [exact Hnd|exact (proj1 Ha)].
+Qed.
 
 (** ---- non-vacuity and class boundaries ---- *)
-(** the witnesses carry no conflicts *)
-Definition bl0 : cmd -> arg -> list bytes := fun _ _ => [].
 Definition zx_opt : arg :=
   mkArg (lit "color") (Some (lit "c")) (Some (lit "color")) [(lit "k", true); (lit "x", false)] [(lit "colour", true)]
         ASet None (Some [mkPv (lit "always") false; mkPv (lit "never") false; mkPv (lit "secret") true]) None false false false.
@@ -1100,6 +1351,12 @@ Proof.
     + inversion H' as [c sc Hin|c sc m Hin H'']; subst; cbn in Hin; destruct Hin.
 Qed.
 
+Lemma zx_nobl : nobl zx_root.
+Proof.
+  intros n [->|Hn] a Ha; [|destruct (zx_desc _ Hn) as [-> | [-> | -> ]]]; cbn in Ha;
+    repeat (destruct Ha as [<-|Ha]; [reflexivity|]); destruct Ha.
+Qed.
+
 (** a tree with the siblings [add] / [add-all] (one name a string prefix of the other), a visible and a hidden alias,
     two levels, options with aliases and possible values: in the class *)
 Example zsh_ok_example : zsh_ok zx_root (lit "p").
@@ -1116,11 +1373,21 @@ Proof.
       repeat (destruct H as [H|H]; [discriminate|]); exact H.
   - intros p Hp. destruct Hp as [->|Hp]; [|destruct (zx_desc _ Hp) as [-> | [-> | -> ]]]; cbn;
       repeat constructor; cbn; intuition discriminate.
+  - apply nobl_cres. exact zx_nobl.
+  - apply nobl_cres. exact zx_nobl.
 Qed.
 
 (** a decidable test for "is a contiguous part of" (used for the refutation witnesses) *)
 Fixpoint binfix (a l : bytes) : bool :=
   starts_with l a || match l with [] => false | _ :: t => binfix a t end.
+Lemma binfix_sound a : forall l, binfix a l = true -> sublist a l.
+Proof.
+  induction l as [|x t IH]; cbn [binfix]; intros H.
+  - rewrite Bool.orb_false_r in H. apply starts_with_spec in H. destruct H as [post ->]. exists [], post. reflexivity.
+  - apply Bool.orb_true_iff in H. destruct H as [H|H].
+    + apply starts_with_spec in H. destruct H as [post ->]. exists [], post. reflexivity.
+    + destruct (IH H) as (pre & post & ->). exists (x :: pre), post. reflexivity.
+Qed.
 Lemma binfix_complete a l : sublist a l -> binfix a l = true.
 Proof.
   intros (pre & post & ->). induction pre as [|x pre IH].
@@ -1133,15 +1400,17 @@ Qed.
 Definition zr_optional : arg :=
   mkArg (lit "o") None (Some (lit "opt")) [] [] ASet (Some (0, 1)) (Some [mkPv (lit "zz") false]) None false false false.
 Lemma zsh_optional_value_refuted :
-  exists c d b s a vs pv, zsh_ok c b /\ zsh_script bl0 c d = Some s /\ In a (c_args c) /\ a_is_positional a = false /\
+  exists c d b s a vs pv, zsh_ok c b /\ zsh_script c d = Some s /\ In a (c_args c) /\ a_is_positional a = false /\
     possible_values a = Some vs /\ In pv vs /\ pv_hide pv = false /\ a_min_values a = 0 /\
     ~ sublist (pv_name pv) s.
 Proof.
   set (c := mkCmd (lit "p") [] [zr_optional] [] (Some (lit "p")) false false sets0 sets0).
-  exists c, cd0, (lit "p"). destruct (zsh_script bl0 c cd0) as [s|] eqn:E; [|vm_compute in E; discriminate].
+  exists c, cd0, (lit "p"). destruct (zsh_script c cd0) as [s|] eqn:E; [|vm_compute in E; discriminate].
   exists s, zr_optional, [mkPv (lit "zz") false], (mkPv (lit "zz") false).
   split.
-  { split; [reflexivity| | |].
+  { assert (Hnb : nobl c).
+    { intros n [->|Hn] a Ha; [cbn in Ha; destruct Ha as [<-|[]]; reflexivity|]. inversion Hn as [? ? H|? ? ? H]; destruct H. }
+    split; [reflexivity| | | |apply nobl_cres; exact Hnb|apply nobl_cres; exact Hnb].
     - intros p sc [->|Hp] Hin; [destruct Hin|]. inversion Hp as [? ? H|? ? ? H]; destruct H.
     - intros n Hn. inversion Hn as [? ? H|? ? ? H]; destruct H.
     - intros p [->|Hp]; [constructor|]. inversion Hp as [? ? H|? ? ? H]; destruct H. }
@@ -1155,14 +1424,16 @@ Qed.
 Definition zr_alias_only : arg :=
   mkArg (lit "o") None (Some (lit "opt")) [(lit "x", true)] [] ASet None None None false false false.
 Lemma zsh_alias_without_primary_refuted :
-  exists c d b s a, zsh_ok c b /\ zsh_script bl0 c d = Some s /\ In a (c_args c) /\ In (lit "x", true) (a_short_aliases a) /\
+  exists c d b s a, zsh_ok c b /\ zsh_script c d = Some s /\ In a (c_args c) /\ In (lit "x", true) (a_short_aliases a) /\
     ~ sublist (lit "-x") s.
 Proof.
   set (c := mkCmd (lit "p") [] [zr_alias_only] [] (Some (lit "p")) false false sets0 sets0).
-  exists c, cd0, (lit "p"). destruct (zsh_script bl0 c cd0) as [s|] eqn:E; [|vm_compute in E; discriminate].
+  exists c, cd0, (lit "p"). destruct (zsh_script c cd0) as [s|] eqn:E; [|vm_compute in E; discriminate].
   exists s, zr_alias_only.
   split.
-  { split; [reflexivity| | |].
+  { assert (Hnb : nobl c).
+    { intros n [->|Hn] a Ha; [cbn in Ha; destruct Ha as [<-|[]]; reflexivity|]. inversion Hn as [? ? H|? ? ? H]; destruct H. }
+    split; [reflexivity| | | |apply nobl_cres; exact Hnb|apply nobl_cres; exact Hnb].
     - intros p sc [->|Hp] Hin; [destruct Hin|]. inversion Hp as [? ? H|? ? ? H]; destruct H.
     - intros n Hn. inversion Hn as [? ? H|? ? ? H]; destruct H.
     - intros p [->|Hp]; [constructor|]. inversion Hp as [? ? H|? ? ? H]; destruct H. }
@@ -1181,7 +1452,7 @@ Definition zs_root : cmd := mkCmd (lit "p") [] [] [zs_a; zs_ab] (Some (lit "p"))
 Lemma zsh_space_in_name_refuted :
   linked zs_root /\ sibling_names zs_root /\ ~ nospace zs_root /\ desc zs_root zs_ab /\
   parser_of zs_root (bin_or_default zs_ab) = Some zs_b /\
-  exists s, zsh_script bl0 zs_root cd0 = Some s /\ ~ sublist (lit "-x[") s.
+  exists s, zsh_script zs_root cd0 = Some s /\ ~ sublist (lit "-x[") s.
 Proof.
   assert (Hdesc : forall n, desc zs_root n -> n = zs_a \/ n = zs_ab \/ n = zs_b).
   { intros n H. inversion H as [c sc Hin|c sc m Hin H']; subst; cbn in Hin.
@@ -1200,23 +1471,123 @@ Proof.
   - intros H. apply (H zs_ab); [apply desc_child; right; left; reflexivity|]. cbn. auto.
   - apply desc_child. right; left; reflexivity.
   - reflexivity.
-  - destruct (zsh_script bl0 zs_root cd0) as [s|] eqn:E; [|vm_compute in E; discriminate].
+  - destruct (zsh_script zs_root cd0) as [s|] eqn:E; [|vm_compute in E; discriminate].
     exists s. split; [reflexivity|]. intros Hs. apply binfix_complete in Hs.
     vm_compute in E. inversion E; subst s. vm_compute in Hs. discriminate.
 Qed.
 
 (** the example tree: both files exist, the [add-all] arm carries the block of [add-all] (not that of [add]) *)
 Example zsh_example_paths :
-  exists s, zsh_script bl0 zx_root cd0 = Some s /\
-    sublist (zrender ([Zx (lit "(add-all)")] ++ znl ++ args_block bl0 zx_add_all cd0 (Some zx_root))) s /\
-    sublist (zrender ([Zx (lit "(x)")] ++ znl ++ args_block bl0 (zx_leaf (lit "x") (lit "p add x")) cd0 (Some zx_add))) s.
+  exists s, zsh_script zx_root cd0 = Some s /\
+    sublist (zrender ([Zx (lit "(add-all)")] ++ znl ++ args_block zx_add_all cd0 (Some zx_root))) s /\
+    sublist (zrender ([Zx (lit "(x)")] ++ znl ++ args_block (zx_leaf (lit "x") (lit "p add x")) cd0 (Some zx_add))) s.
 Proof.
-  destruct (zsh_script_path bl0 zx_root cd0 (lit "p") [lit "add-all"] zx_add_all cd0 zx_root zsh_ok_example) as (s & Es & H1).
+  destruct (zsh_script_path zx_root cd0 (lit "p") [lit "add-all"] zx_add_all cd0 zx_root zsh_ok_example) as (s & Es & H1).
   { apply dreach_one; [right; left; reflexivity|left; reflexivity]. }
-  destruct (zsh_script_path bl0 zx_root cd0 (lit "p") [lit "a"; lit "x"] (zx_leaf (lit "x") (lit "p add x")) cd0 zx_add zsh_ok_example)
+  destruct (zsh_script_path zx_root cd0 (lit "p") [lit "a"; lit "x"] (zx_leaf (lit "x") (lit "p add x")) cd0 zx_add zsh_ok_example)
     as (s' & Es' & H2).
   { eapply dreach_cons; [left; reflexivity|right; left; reflexivity|].
     apply dreach_one; [left; reflexivity|left; reflexivity]. }
   rewrite Es in Es'. inversion Es'; subst s'. exists s. split; [exact Es|]. split; [exact H1|exact H2].
 Qed.
 
+
+(** ---- round 4: conflicts with groups, evaluated; the class boundary of totality ---- *)
+Definition zc_flag (id l : bytes) (grp cx : list bytes) (glob : bool) : arg :=
+  mkArgX id None (Some l) [] [] ASetTrue None None None glob false false [] None false cx grp.
+Definition zc_a : arg := zc_flag (lit "a") (lit "a") [lit "g1"] [] false.
+Definition zc_b : arg := zc_flag (lit "b") (lit "bb") [lit "g1"; lit "g1"] [] false.
+Definition zc_c : arg := zc_flag (lit "c") (lit "c") [] [lit "g1"; lit "a"] false.
+Definition zc_root : cmd := mkCmd (lit "p") [] [zc_a; zc_b; zc_c] [] (Some (lit "p")) false false sets0 sets0.
+Lemma zc_desc n : desc zc_root n -> False.
+Proof. intros H. inversion H as [? ? Hin|? ? ? Hin]; destruct Hin. Qed.
+(** [--c] conflicts with the group [g1] = {a, b} ([b] names it twice: once in the list) and with [a]: in the class of
+    [zsh_ok_local]; the exclusion list is the members of the group in argument order, then [a] *)
+Example zsh_conflicts_group_example :
+  zsh_ok zc_root (lit "p") /\ NoDup (map a_id (c_args zc_root)) /\
+  conflict_targets zc_root (lit "g1") = Some [zc_a; zc_b] /\
+  arg_conflicts zc_root zc_c None = lit "(--a --bb --a)" /\
+  exists s, zsh_script zc_root cd0 = Some s /\ sublist (lit "'(--a --bb --a)--c[]' \") s.
+Proof.
+  split.
+  { apply zsh_ok_local; [reflexivity| | | |].
+    - intros p sc [->|Hp] Hin; [destruct Hin|destruct (zc_desc _ Hp)].
+    - intros n Hn. destruct (zc_desc _ Hn).
+    - intros p [->|Hp]; [constructor|destruct (zc_desc _ Hp)].
+    - intros n [->|Hn]; [reflexivity|destruct (zc_desc _ Hn)]. }
+  split. { cbn. repeat constructor; cbn; intuition discriminate. }
+  split; [reflexivity|]. split; [reflexivity|].
+  destruct (zsh_script zc_root cd0) as [s|] eqn:E; [|vm_compute in E; discriminate].
+  exists s. split; [reflexivity|]. apply binfix_sound. vm_compute in E. inversion E; subst s. vm_compute. reflexivity.
+Qed.
+
+(** class boundary of totality = finding [zsh-global-conflicts-group]: a GLOBAL argument that conflicts with a GROUP.
+    clap's configuration check ([id_exists]: every blacklist entry names an argument or a group of the command) accepts the
+    command and the parser handles it; [Command::get_global_arg_conflicts_with] looks the entry up among ARGUMENTS only and
+    [expect]s: the zsh generator panics -- for every assignment of texts, in a one-node tree.  (Replayed on the real
+    generator: "Command::get_arg_conflicts_with: The passed arg conflicts with an arg unknown to the cmd".) *)
+Definition zg_g : arg := zc_flag (lit "g") (lit "g") [] [lit "grp"] true.
+Definition zg_a : arg := zc_flag (lit "a") (lit "a") [lit "grp"] [] false.
+Definition zg_root : cmd := mkCmd (lit "p") [] [zg_g; zg_a] [] (Some (lit "p")) false false sets0 sets0.
+Lemma zsh_global_conflicts_group_refuted :
+  exists c b,
+    c_bin c = Some b /\ linked c /\ nospace c /\ sibling_names c /\
+    (forall n, (n = c \/ desc c n) -> forall a, In a (c_args n) -> forall id, In id (a_blacklist a) ->
+       (is_some (find_arg n id) || find_group n id) = true) /\
+    conflicts_local c = false /\
+    forall d, zsh_script c d = None.
+Proof.
+  assert (Hdesc : forall n, desc zg_root n -> False).
+  { intros n H. inversion H as [? ? Hin|? ? ? Hin]; destruct Hin. }
+  exists zg_root, (lit "p"). split; [reflexivity|].
+  split. { intros p sc [->|Hp] Hin; [destruct Hin|destruct (Hdesc _ Hp)]. }
+  split. { intros n Hn. destruct (Hdesc _ Hn). }
+  split. { intros p [->|Hp]; [constructor|destruct (Hdesc _ Hp)]. }
+  split. { intros n [->|Hn]; [|destruct (Hdesc _ Hn)]. intros a Ha id Hid. cbn in Ha.
+           destruct Ha as [<-|[<-|[]]]; cbn in Hid; [destruct Hid as [<-|[]]; reflexivity|destruct Hid]. }
+  split; [reflexivity|].
+  intros d. unfold zsh_script, zsh_pieces. cbn [zg_root c_bin].
+  rewrite (get_args_of_unresolved _ d None) by reflexivity. reflexivity.
+Qed.
+
+(** round 4: the value name of an option spec: every line of an option that requires a value carries [:vn:] followed by the
+    value completion, [vn] = the FIRST value name, a blank when there is none *)
+Theorem opt_line_value_name c g a ad line :
+  a_min_values a <> 0 -> In line (opt_lines c g (a, ad)) ->
+  exists val, zvalue_completion (a, ad) = Some val /\
+    In (Zx (lit ":" ++ value_name a ++ lit ":")) line /\
+    value_name a = match a_value_names a with [] => lit " " | v :: _ => v end.
+Proof.
+  intros Hm Hl.
+  assert (Hv : exists val, zvalue_completion (a, ad) = Some val).
+  { unfold zvalue_completion. cbn [fst snd]. destruct (possible_values a); [destruct (existsb _ _); eexists; reflexivity|].
+    destruct (a_get_hint a); eexists; reflexivity. }
+  destruct Hv as [val Ev]. exists val. split; [exact Ev|]. split; [|reflexivity].
+  pose proof (opt_vc_values (a, ad) val Hm Ev) as Hvc. cbn [fst] in Hvc.
+  assert (Hx' : In (Zx (lit ":" ++ value_name a ++ lit ":")) (opt_vc (a, ad))) by (eapply sublist_in; [exact Hvc|left; reflexivity]).
+  unfold ZshModel.opt_lines in Hl. apply in_app_or in Hl. destruct Hl as [Hl|Hl].
+  - destruct (get_short_and_visible_aliases (fst (a, ad))); [|destruct Hl]. apply in_map_iff in Hl.
+    destruct Hl as (s & <- & _). unfold ZshModel.opt_short_line. apply in_or_app. right. apply in_or_app. left. exact Hx'.
+  - destruct (get_long_and_visible_aliases (fst (a, ad))); [|destruct Hl]. apply in_map_iff in Hl.
+    destruct Hl as (s & <- & _). unfold ZshModel.opt_long_line. apply in_or_app. right. apply in_or_app. left. exact Hx'.
+Qed.
+
+(** the local class, spelled out: clap's configuration check ([id_exists] for every entry) AND, for a global option / flag,
+    every entry names an ARGUMENT -- the second conjunct is what excludes the [expect] *)
+Theorem conflicts_local_meaning m :
+  conflicts_local m = true <->
+  forall a, In a (c_args m) -> a_is_positional a = false -> forall id, In id (a_blacklist a) ->
+    (is_some (find_arg m id) || find_group m id) = true /\ (a_global a = true -> is_some (find_arg m id) = true).
+Proof.
+  unfold conflicts_local. rewrite forallb_forall. split.
+  - intros H a Ha Hp id Hid.
+    assert (Hf : In a (filter (fun a => negb (a_is_positional a)) (c_args m))) by (apply filter_In; rewrite Hp; auto).
+    specialize (H a Hf). rewrite forallb_forall in H. specialize (H id Hid). unfold entry_ok in H.
+    destruct (is_some (find_arg m id)); [split; [reflexivity|reflexivity]|]. cbn [orb] in H. cbn [orb].
+    apply andb_true_iff in H. destruct H as [Hg Hgr]. split; [exact Hgr|].
+    intros Hglob. rewrite Hglob in Hg. discriminate.
+  - intros H a Ha. apply filter_In in Ha. destruct Ha as [Ha Hp]. apply Bool.negb_true_iff in Hp.
+    apply forallb_forall. intros id Hid. destruct (H a Ha Hp id Hid) as [H1 H2]. unfold entry_ok.
+    destruct (is_some (find_arg m id)); [reflexivity|]. cbn [orb] in *.
+    destruct (a_global a); [specialize (H2 eq_refl); discriminate|]. exact H1.
+Qed.
